@@ -221,6 +221,8 @@ def run(ctx):
                 if k:
                     cases.append((n_intf, W, T, s, k, 0))
     results = H.run_many(sched_case, cases, jobs=14, timeout=600)
+    for c in cases[:3]:
+        ctx.sample({"n_intf": c[0], "workers": c[1], "steps": c[2], "schedule": c[3], "stop_after": c[4], "raise_steps_to": c[5]})
     reqs, refs = [], []
     for case, (tag, res) in zip(cases, results):
         if tag != "ok":
